@@ -24,7 +24,9 @@ RULE = ('states = histories over {write(file, content_i), touch(file), '
         'motifs.  non-trivial = history with >=1 file edit and >=1 observe.')
 RULE += (
          ' One registered default (svc:ref) refers by rule: to a policy the'
-         ' files redefine.')
+         ' files redefine.'
+         ' World w2dep: deprecated-name overrides coming and going in the'
+         ' main file and in a directory file.')
 ASSUMPTIONS = [
     'modification times strictly increase with every file operation (the '
     'property says each change advances modification times)',
@@ -36,7 +38,7 @@ ASSUMPTIONS = [
 ]
 
 ROLES = ['dp', 'do', 'dn', 'dold', 'cn', 'cn2', 'cold', 'm1', 'mx', 'm2', 'mold', 'a1', 'a2',
-         'anew', 'b1', 'e1', 'ex', 'rr']
+         'anew', 'b1', 'e1', 'ex', 'rr', 'aold']
 PROBE_NAMES = ['svc:plain', 'svc:over', 'svc:new', 'svc:old', 'svc:extra',
                'svc:chg', 'svc:ref']
 CONTENTS = {
@@ -45,6 +47,8 @@ CONTENTS = {
              'c0': {}},
     'd1/a': {'c1': {'svc:over': 'role:a1'},
              'c2': {'svc:plain': 'role:a2', 'svc:new': 'role:anew'},
+             # an override under the DEPRECATED name, in a directory file
+             'c3': {'svc:old': 'role:aold'},
              'c0': {}},
     'd1/b': {'c1': {'svc:over': 'role:b1', 'svc:extra': 'role:b1'},
              'c0': {}},
@@ -62,14 +66,19 @@ WORLDS = {
     'w3': {'files': ['main', 'd1/a', 'd2/a'],
            'contents': {'main': ['c1', 'c2', 'c0'], 'd1/a': ['c1', 'c2'],
                         'd2/a': ['c1', 'c0']}},
+    # deprecated-name overrides coming and going in the main file (c2) and
+    # in a directory file (c3) next to a main file that may hold no rules
+    'w2dep': {'files': ['main', 'd1/a'],
+              'contents': {'main': ['c0', 'c2'], 'd1/a': ['c3', 'c0']}},
     'w4': {'files': ['main', 'd1/a', 'd1/b', 'd2/a'],
            'contents': {'main': ['c1', 'c2', 'c0'], 'd1/a': ['c1', 'c2'],
                         'd1/b': ['c1', 'c0'], 'd2/a': ['c1', 'c0']}},
 }
 BOUNDS = {
-    'quick': [('w3', 4, False), ('w2', 6, True), ('w4full', 3, False)],
+    'quick': [('w3', 4, False), ('w2', 6, True), ('w4full', 3, False),
+              ('w2dep', 5, False)],
     'thorough': [('w2', 30, True), ('w3', 6, True), ('w4', 5, False),
-                 ('w4full', 5, True)],
+                 ('w4full', 5, True), ('w2dep', 30, True)],
 }
 MOTIF_BOUND = {'quick': 3, 'thorough': 5}
 
